@@ -99,15 +99,16 @@ class Report:
 
     def add_violations(self, vs, known):
         for v in vs:
+            n = getattr(v, 'count', 1)
             f = match_known(v, known)
             if f is not None:
-                self.known_seen[f['id']] = self.known_seen.get(f['id'], 0) + 1
+                self.known_seen[f['id']] = self.known_seen.get(f['id'], 0) + n
                 continue
-            self.nviol += 1
+            self.nviol += n
             ck = v.cls_key()
             if ck not in self.vclasses:
                 self.vclasses[ck] = [v, 0]
-            self.vclasses[ck][1] += 1
+            self.vclasses[ck][1] += n
 
     def sample(self, s, limit=12):
         if len(self.cov['samples']) < limit:
